@@ -70,6 +70,8 @@ func main() {
 			usage()
 		}
 		os.Exit(eng.RunSweep(repoDir, verifDir, os.Args[2], os.Args[3]))
+	case "lockscan":
+		os.Exit(eng.RunLockScan(repoDir))
 	case "warmup":
 		os.Exit(eng.Warmup(repoDir))
 	case "replay":
